@@ -65,9 +65,14 @@ def check(ctx):
                 nm = call_attr(cl)
                 rc = dv.record_call(cl, RH)
                 if rc is not None:
-                    st = st.with_flag('rec:' + rc[0] + ':' + rc[1][0] if rc[1] else 'rec:?')
+                    from ..norm import inline_class_factories as _icf
+                    rtxt = ast.unparse(_icf(P, subst(ast.parse(rc[1][0], mode='eval').body, FrameEnv(n.frame)))) if rc[1] else '?'
+                    st = st.with_flag('rec:' + rc[0] + ':' + rtxt)
                 if nm == 'append' and is_self_attr(cl.func.value, '_request_queue'):
-                    st = st.with_flag('queued:' + ast.unparse(cl.args[0]))
+                    # what is queued, spelled from the entry point's own parameters (through helper parameters, locals and a factory classmethod)
+                    from ..norm import inline_class_factories
+                    qe = inline_class_factories(P, subst(cl.args[0], FrameEnv(n.frame)))
+                    st = st.with_flag('queued:' + ast.unparse(qe))
                 if nm in ('insert', 'appendleft', 'extend') and is_self_attr(cl.func.value, '_request_queue'):
                     st = st.with_flag('queued-not-at-tail')
                 if nm == 'try_working_requests':
@@ -116,7 +121,7 @@ def check(ctx):
                     bad = 'an accepted order must be appended once at the tail of the queue'
                 else:
                     var = qd[0].split(':', 1)[1]
-                    d_ = defs.get(var)
+                    d_ = ast.parse(var, mode='eval').body
                     wo_args = None
                     if isinstance(d_, ast.Call) and ast.unparse(d_.func) == '_WorkOrder' and P.has_cls('_WorkOrder'):
                         wfn = P.method(P.cls('_WorkOrder'), '__init__')[1]
@@ -133,7 +138,7 @@ def check(ctx):
                             bad = 'the queued order must be built from (target, tag, capacity reported by the target for this tag, info)'
                     else:
                         bad = 'the queued order is not a work order built from the request'
-                    if not bad and f'rec:enter_queue:{var}' not in st.flags:
+                    if not bad and not any(f.startswith('rec:enter_queue:') and f.endswith(':' + var) for f in st.flags):
                         bad = "the accepted order is not recorded with an 'enter_queue' datapoint"
                     if not bad and 'scan-after-queue' not in st.flags:
                         bad = 'the queue is not scanned after the order was added'
